@@ -5,7 +5,7 @@ from __future__ import annotations
 import json
 from typing import Optional
 
-from ..common import Check
+from ..common import CORPUS, Check
 from ..lockstep import Case, lockstep
 
 META = {
@@ -20,7 +20,8 @@ META = {
     "level_text": "c35_running_tx / c35_method_caller_running / c35_running_exact (exactly the running transactions and "
     "methods are listed, methods with a running parent, given C04 on the samples), c35_locked / c35_locked_iff, "
     "c35_stats (run/locked = counts over the history) are proved for every ProfileData, every sample valuation with "
-    "distinct ids and every history; c35_cycle ties the profile to the per-cycle function",
+    "distinct ids and every history; c35_cycle ties the profile to the per-cycle function; c35_no_raise: make never "
+    "raises StopIteration when transactions_by_method is consistent with method_parents",
     "level_note": "trusted: Lean kernel (propext, Classical.choice, Quot.sound), pysim, harness glue. Hypothesis of "
     "c35_method_caller_running is property C04 (a running method has a running parent); the monitor checks it on "
     "the sampled signals. The recursive=True tree is modelled and compared (fuel-bounded recursion) but only the "
@@ -332,18 +333,41 @@ def design_case(desc: dict, stim: list[str], tag: str) -> Case:
         ops.append(f"cyc t={tb} m={mb} in={line}")
     ops += ["ana", "anarec"]
     d = {"kind": "design", "design": desc, "names": {str(k): v for k, v in names.items()}}
-    return Case(_cfg_line(tx, ms, pd.method_parents, pd.transactions_by_method, pd.transaction_conflicts), ops, d, tag)
+    case = Case(_cfg_line(tx, ms, pd.method_parents, pd.transactions_by_method, pd.transaction_conflicts), ops, d, tag)
+    # The order of ProfileData's conflict lists comes from iterating sets of objects and may differ between two
+    # elaborations of the same design.  The configuration line above and the implementation's profile must come from
+    # ONE elaboration, so the profile lines are fixed here (see `impl_design`).
+    _impl_cache[case.key()] = _profile_lines(case, r)
+    return case
+
+
+def design_job(desc: dict, stim: list[str], tag: str):
+    """for worker processes: the case together with the implementation's observation lines"""
+    c = design_case(desc, stim, tag)
+    return c, _impl_cache[c.key()]
+
+
+_impl_cache: dict[str, list[str]] = {}
 
 
 def impl_design(case: Case) -> list[str]:
-    from transactron.profiler import Profile
-
+    if case.key() in _impl_cache:
+        return _impl_cache[case.key()]
+    # shrunk / replayed cases: simulate again (only the monitor looks at these, and it does not depend on list order)
     desc = case.desc["design"]
     stim = [_parse_cyc(op)[2] for op in case.ops if op.startswith("cyc")]
-    r = simulate(desc, stim)
+    return _profile_lines(case, simulate(desc, stim))
+
+
+def _profile_lines(case: Case, r: dict) -> list[str]:
+    from transactron.profiler import Profile
+
+    stim = [_parse_cyc(op)[2] for op in case.ops if op.startswith("cyc")]
     prof = r["profile"]
     if {str(k): v for k, v in r["names"].items()} != case.desc["names"]:
         return ["ids-renumbered"] + ["-"] * len(case.ops)
+    if len(prof.cycles) > len(stim):
+        return [f"profile-has-{len(prof.cycles)}-cycles-for-{len(stim)}-clock-edges"] + ["-"] * len(case.ops)
     out = ["ok"]
     k = 0
     # the profile of the prefix of cycles seen so far (ana/anarec may appear anywhere after shrinking)
@@ -419,6 +443,8 @@ def monitor(case: Case, out: list[str]) -> Optional[str]:
                 if case.desc.get("kind") == "design":
                     return f"cycle {k}: CycleProfile.make raised: {o}"
                 continue
+            if not o.startswith("run="):
+                return f"cycle {k}: no CycleProfile was recorded for this clock cycle ({o})"
             tb, mb, _ = _parse_cyc(op)
             run, lck = _parse_out_cyc(o)
             ts = dict(zip(tx, tb))
@@ -451,6 +477,8 @@ def monitor(case: Case, out: list[str]) -> Optional[str]:
             for i, (r, rn, ru) in ts.items():
                 runs[i] += ru
                 lcks[i] += int(bool(r and rn and not ru and any(ts[j][2] for j in conflicts[i] if j in ts)))
+        elif kind in ("ana", "anarec") and o.startswith("raise") and case.desc.get("kind") == "design":
+            return f"analyze_transactions raised on a recorded profile: {o}"
         elif kind == "ana" and o.startswith("stats="):
             # "the per-transaction run/locked statistics equal the counts over cycles"
             if set(tx) & set(ms):
@@ -581,8 +609,20 @@ def run(ctx: Check):
             return locked_tx and nested
         return locked_tx and any(o.startswith("run=") and any(f"{m}:" in o.split()[0] for m in ms) for o in out[1:])
 
+    # ---- corpus (minimised failing inputs of past mutants / directed cases), run first
+    corpus_d: list[Case] = []
+    corpus_s: list[Case] = []
+    cdir = CORPUS / "C35"
+    for fn in sorted(cdir.glob("*.json")) if cdir.exists() else []:
+        b = json.loads(fn.read_text())
+        if b.get("desc", {}).get("kind") == "design":
+            stim = [_parse_cyc(op)[2] for op in b["ops"] if op.startswith("cyc")]
+            corpus_d.append(design_case(b["desc"]["design"], stim, "corpus"))  # rebuilt: ids/orders of this run
+        else:
+            corpus_s.append(Case(b["cfg"], list(b["ops"]), b.get("desc", {"kind": "synthetic"}), "corpus"))
+
     # ---- (a) real designs with the real profiler_process
-    cases: list[Case] = []
+    cases: list[Case] = list(corpus_d)
     for d in DIRECTED:
         n = len(d["tcalls"]) + len(d["mcalls"]) + d["nC"]
         stim = []
@@ -590,10 +630,21 @@ def run(ctx: Check):
             bits = f"{x:0{n}b}"
             stim.append(f"{bits[:d['nT']]}/{bits[d['nT']:d['nT'] + d['nM']]}/{bits[d['nT'] + d['nM']:]}")
         cases.append(design_case(d, stim, "directed"))
-    ndes = ctx.pick(70, 1500)
+    ndes = ctx.pick(60, 1500)
+    jobs = []
     for k in range(ndes):
         d = gen_design(rng, big=(k % 3 == 2))
-        cases.append(design_case(d, _stim(rng, d, ctx.pick(24, 60)), "random"))
+        jobs.append((d, _stim(rng, d, ctx.pick(24, 60)), "random"))
+    if ctx.quick:
+        cases += [design_case(*j) for j in jobs]
+    else:
+        import multiprocessing as mp
+        import os
+
+        with mp.get_context("fork").Pool(min(16, os.cpu_count() or 1)) as pool:
+            for c, o in pool.starmap(design_job, jobs, chunksize=8):
+                _impl_cache[c.key()] = o
+                cases.append(c)
     for c in cases:
         ctx.count("designs_transactions", c.desc["design"]["nT"])
         ctx.count("designs_methods", c.desc["design"]["nM"])
@@ -606,10 +657,20 @@ def run(ctx: Check):
         for _ in range(25):
             yield design_case(d, _stim(rng2, d, 40), "search")
 
-    lockstep(ctx, "profiler_process", "C35", cases, impl, monitor, more_design, nontrivial, procs=1)
-
     # ---- (b) synthetic data through the real CycleProfile.make / analyze_transactions
-    scases = [synth_case(rng) for _ in range(ctx.pick(400, 6000))]
+    scases = [synth_case(rng) for _ in range(ctx.pick(300, 6000))]
+    if ctx.thorough:
+        # every valuation of the sample bits (2 transactions x 3 bits, 2 methods) for a few consistent ProfileData;
+        # valuations violating C04 are included: the monitor then only requires that such a method is not listed
+        import itertools
+
+        for _ in range(12):
+            base = synth_case(rng)
+            while base.desc["nT"] != 2 or base.desc["nM"] != 2:
+                base = synth_case(rng)
+            ops = [f"cyc t={''.join(map(str, v[:3]))},{''.join(map(str, v[3:6]))} m={v[6]}{v[7]}"
+                   for v in itertools.product((0, 1), repeat=8)]
+            scases.append(Case(base.cfg, ops + ["ana", "anarec"], base.desc, "exhaustive"))
 
     def more_synth(case, rng2):
         for _ in range(300):
@@ -617,14 +678,22 @@ def run(ctx: Check):
 
     # outside the hypotheses (ids clash, inconsistent transactions_by_method, C04 broken on the samples): only
     # model/implementation agreement is checked there, the monitor makes no property claim (see `monitor`)
-    mcases = [synth_case(rng, malformed=True, tag="malformed") for _ in range(ctx.pick(200, 3000))]
+    mcases = [synth_case(rng, malformed=True, tag="malformed") for _ in range(ctx.pick(120, 3000))]
 
     def nontrivial_synth(case, out):
         if case.desc.get("malformed"):
             return any("raise" in x for x in out)
         return nontrivial(case, out)
 
-    lockstep(ctx, "CycleProfile.make", "C35", scases + mcases, impl, monitor, more_synth, nontrivial_synth, procs=1)
+    def more(case, rng2):
+        return more_design(case, rng2) if case.desc.get("kind") == "design" else more_synth(case, rng2)
+
+    ctx.count("cases_designs_with_profiler_process", len(cases))
+    ctx.count("cases_synthetic_direct_calls", len(corpus_s) + len(scases) + len(mcases))
+    # one Lean driver session for both correspondences (its start-up dominates the quick tier): the designs with the
+    # real profiler_process first, then the direct calls of CycleProfile.make / analyze_transactions
+    lockstep(ctx, "profiler_process+CycleProfile.make", "C35", cases + corpus_s + scases + mcases, impl, monitor, more,
+             nontrivial_synth, procs=ctx.pick(1, None))
     ctx.note(
         "which of several simultaneously running conflicting transactions / parents is named depends on the iteration "
         "order of ProfileData's lists (sets in _conflict_graph); the model receives the lists ProfileData.make "
